@@ -88,6 +88,7 @@ def names_upto(segs, depth):
     return out
 
 
+NONUTF_CREATED = []       # filled by make_tree
 TREETOP = "/tmp/c17tree"
 LINK = "/tmp/c17link"     # a symbolic link OUTSIDE the base that points at the base: another spelling of the base directory
 ABSDIR = "/tmp/c17abs"   # an absolute canary location without any dot segment
@@ -216,6 +217,24 @@ def make_tree():
     except OSError:
         pass
     os.symlink(base, LINK)
+    # base directories whose names are not UTF-8 (a lone 0xFF, an overlong '/', an encoded surrogate, 0xFE 0xFF, an invalid
+    # byte in an intermediate directory): full copies of the base, each with a look-alike decoy spelled with U+FFFD (what a
+    # lossy conversion of the path to a string yields) that holds canaries.  Skipped when the file system refuses the names.
+    del NONUTF_CREATED[:]
+    for rel in ("tpl\udcff", "tpl\udcc0\udcaf", "tpl\udced\udca0\udc80x", "\udcfe\udcff", "mid\udc80x/base", "caf\udce9/tpl"):
+        real = os.path.join(root, rel)
+        lossy = os.path.join(root, os.fsencode(rel).decode("utf-8", "replace"))
+        try:
+            os.makedirs(os.path.dirname(real), exist_ok=True)
+            shutil.copytree(base, real, symlinks=True)
+            if lossy != real:
+                for r in ("a", "dir/a", "canary", "sub/a", "d/a", "d/d/a", "dir/sub/a", "a.", "a..b"):
+                    q = os.path.join(lossy, r)
+                    os.makedirs(os.path.dirname(q), exist_ok=True)
+                    open(q, "w").write(body("CANARY9%d" % len(NONUTF_CREATED)))
+            NONUTF_CREATED.append(real)
+        except (OSError, UnicodeError, ValueError):
+            continue
     return top, base, absdir, tags, outside
 
 
@@ -439,7 +458,9 @@ def run_all(chk, mj, hooks, proofs_ok, top, base, absdir, tags, outside):
                ("relative ../../root/base", "../../root/base", os.path.join(root, "work")), ("relative ../work/../base", "../work/../base", os.path.join(root, "work")),
                ("relative base/sub/..", "base/sub/..", root), ("relative base2/../base", "base2/../base", root), ("relative nonexistent/../base", "nonexistent/../base", root),
                ("relative .", ".", base), ("empty string", "", base), ("relative ..", "..", os.path.join(base, "dir")), ("relative ../..", "../..", os.path.join(base, "dir", "sub")),
-               ("absolute with ..", os.path.join(root, "work", "..", "base"), None), ("absolute with trailing ..", os.path.join(base, "dir", ".."), None)]
+               ("absolute with ..", os.path.join(root, "work", "..", "base"), None), ("absolute with trailing ..", os.path.join(base, "dir", ".."), None)] + \
+              [("base path that is not UTF-8: %s" % ascii(os.path.relpath(p, root)), p, None) for p in NONUTF_CREATED] + \
+              [("relative base path that is not UTF-8: %s" % ascii(os.path.relpath(p, root)), os.path.relpath(p, root), root) for p in NONUTF_CREATED[:2]]
     ntarget = sum(1 for c in e2e if c[1] == 0)
     for ci, (label, cfg_base, cwd) in enumerate(configs):
         if replay:
